@@ -43,6 +43,12 @@ def load_contracts(ns):
                 return ast.BoolOp(op=ast.Or(), values=[ast.UnaryOp(op=ast.Not(), operand=node.args[0]), node.args[1]])
             if isinstance(node.func, ast.Name) and node.func.id == 'ite' and len(node.args) == 3:
                 return ast.IfExp(test=node.args[0], body=node.args[1], orelse=node.args[2])
+            if isinstance(node.func, ast.Name) and node.func.id == 'old' and len(node.args) == 1:
+                # old(E): evaluated once in a pre-pass before the real call (see check_call), replayed afterwards
+                return ast.Call(func=ast.Name(id='old_get', ctx=ast.Load()),
+                                args=[ast.Constant(value=f'{node.lineno}:{node.col_offset}'),
+                                      ast.Lambda(args=ast.arguments(posonlyargs=[], args=[], kwonlyargs=[], kw_defaults=[], defaults=[]), body=node.args[0])],
+                                keywords=[])
             return node
 
         def visit_Compare(self, node):
@@ -57,7 +63,19 @@ def load_contracts(ns):
             tree = Lazy().visit(ast.parse(src, fn))
             ast.fix_missing_locations(tree)
             exec(compile(tree, fn, 'exec'), ns)
+    ns.update(rt_overrides(ns))
     return contracts
+
+
+def rt_overrides(ns):
+    """Spec helpers that have a complete native decision procedure replace their sidecar definition (which is written for the prover)."""
+    def exists_key(m, f):
+        try:
+            keys = list(m)
+        except TypeError:
+            return False
+        return any(f(k) for k in keys)
+    return {'exists_key': exists_key}
 
 
 def _wrap1(f):
@@ -126,6 +144,13 @@ def same(a, b):
         return True
 
 
+def safe_repr(x):
+    try:
+        return repr(x)
+    except Exception as e:     # e.g. a half-built instance whose __repr__ reads a missing field
+        return f'<{type(x).__name__} object (repr failed: {type(e).__name__})>'
+
+
 def check_call(rt, key, con, fn, params, args, want_kind, desc):
     """Call the real function on concrete args and evaluate every clause. Returns list of violations."""
     names = list(params)
@@ -140,6 +165,17 @@ def check_call(rt, key, con, fn, params, args, want_kind, desc):
         except Exception:
             return None
     before = [snapshot(a) for a in args[1:]] if names and names[0] in ('self', 'cls') else [snapshot(a) for a in args]
+    rt.OLD.clear()
+    if getattr(con, 'uses_old', False) or (isinstance(con, dict) and con.get('uses_old')):
+        # pre-pass: evaluate the clauses once before the call so every reachable old(E) records its entry value
+        rt.OLD_PHASE[0] = 'pre'
+        for _kind, f_, _mode in clauses_of(con):
+            ps_ = f_.__code__.co_varnames[:f_.__code__.co_argcount]
+            try:
+                f_(*[env.get(n_) for n_ in ps_])
+            except BaseException:
+                pass
+        rt.OLD_PHASE[0] = 'post'
     try:
         result = fn(*args)
         outcome = ('return', result)
@@ -151,7 +187,7 @@ def check_call(rt, key, con, fn, params, args, want_kind, desc):
     after = args[1:] if names and names[0] in ('self', 'cls') else args
     for b, a in zip(before, after):
         if b is not None and not same(b, a):
-            vios.append(('frame', f'argument mutated: before={b!r} after={a!r}'))
+            vios.append(('frame', f'argument mutated: before={safe_repr(b)} after={safe_repr(a)}'))
     rt.set_universe(list(args) + ([outcome[1]] if outcome[0] == 'return' else []))
     for kind, f, mode in clauses_of(con):
         try:
@@ -171,7 +207,7 @@ def check_call(rt, key, con, fn, params, args, want_kind, desc):
                     vios.append((kind, 'raised ParseInterrupt but the acceptance predicate is true'))
             elif mode == 'post':
                 if outcome[0] == 'return' and not ev({'result': outcome[1]}):
-                    vios.append((kind, f'postcondition [{kind}] false for result {outcome[1]!r}'[:300]))
+                    vios.append((kind, f'postcondition [{kind}] false for result {safe_repr(outcome[1])}'[:300]))
             elif mode == 'exc':
                 if outcome[0] == 'raise' and not ev({'exc': outcome[1]}):
                     vios.append((kind, f'disallowed exception {type(outcome[1]).__name__}: {outcome[1]}'[:300]))
